@@ -261,6 +261,9 @@ async fn typepair(c: &Value) -> Value {
 /// `period_ms` ("peer_data"). Row: [97, ping_seen, closed_by_socket, ping_ms (since the handshake bytes were
 /// written), close_ms - ping_ms, messages the application sent after the PING].
 async fn hbpeer(c: &Value) -> Value {
+  if c["mode"].as_str() == Some("stalled") {
+    return hbpeer_stalled(c).await;
+  }
   let ctx = Context::new().expect("ctx");
   let sock = ctx.socket(stype_of(c["stype"].as_str().unwrap())).expect("socket");
   apply_opts(&sock, &c["opts"]).await;
@@ -325,6 +328,56 @@ async fn hbpeer(c: &Value) -> Value {
   let _ = tokio::time::timeout(Duration::from_secs(2), sock.close()).await;
   let _ = tokio::time::timeout(Duration::from_secs(3), ctx.term()).await;
   json!({"rows": [[97, p.is_some() as u64, closed as u64, ping_ms, close_after_ping, sent_after]]})
+}
+
+/// C19, a peer that HANGS: the raw peer completes the handshake and never reads again; `backlog_at_ms` after the
+/// handshake the application queues `backlog` messages of `backlog_size` bytes, far more than the kernel buffers
+/// take, so the session has a pending write (non-empty egress buffer) at every later heartbeat tick. The PING cannot
+/// be observed (nobody reads); the socket's monitor shows when the session gives up.
+/// Row: [96, closed, close_ms since the handshake bytes were written, messages accepted].
+async fn hbpeer_stalled(c: &Value) -> Value {
+  let ctx = Context::new().expect("ctx");
+  let sock = ctx.socket(stype_of(c["stype"].as_str().unwrap())).expect("socket");
+  apply_opts(&sock, &c["opts"]).await;
+  let mon = sock.monitor_default().await.expect("monitor");
+  let port = free_port();
+  let ep = format!("tcp://127.0.0.1:{port}");
+  sock.bind(&ep).await.expect("bind");
+  tokio::time::sleep(Duration::from_millis(30)).await;
+  let stream = TcpStream::connect(("127.0.0.1", port)).await.expect("raw connect");
+  stream.set_nodelay(true).unwrap();
+  let (rd, mut wr) = stream.into_split();
+  let hs = pieces_bytes(&c["hs"]);
+  wr.write_all(&hs).await.expect("handshake write");
+  let _ = wr.flush().await;
+  let t0 = Instant::now();
+  let observe = Duration::from_millis(c.get("observe_ms").and_then(|v| v.as_u64()).unwrap_or(3600));
+  let at = Duration::from_millis(c.get("backlog_at_ms").and_then(|v| v.as_u64()).unwrap_or(250));
+  let n = c.get("backlog").and_then(|v| v.as_u64()).unwrap_or(64);
+  let size = c.get("backlog_size").and_then(|v| v.as_u64()).unwrap_or(262144) as usize;
+  tokio::time::sleep(at.saturating_sub(t0.elapsed())).await;
+  let mut accepted = 0u64;
+  for _ in 0..n {
+    if let Ok(Ok(())) = tokio::time::timeout(Duration::from_millis(20), sock.send(Msg::from_vec(vec![0x42u8; size]))).await {
+      accepted += 1;
+    }
+  }
+  let mut close_ms = 0u64;
+  let mut closed = false;
+  while t0.elapsed() < observe {
+    if let Ok(Ok(ev)) = tokio::time::timeout(Duration::from_millis(50), mon.recv()).await {
+      if matches!(ev, rzmq::socket::SocketEvent::Disconnected { .. }) {
+        closed = true;
+        close_ms = t0.elapsed().as_millis() as u64;
+        break;
+      }
+    }
+  }
+  drop(rd);
+  drop(wr);
+  let _ = tokio::time::timeout(Duration::from_secs(2), sock.close()).await;
+  let _ = tokio::time::timeout(Duration::from_secs(3), ctx.term()).await;
+  json!({"rows": [[96, closed as u64, close_ms, accepted]]})
 }
 
 pub fn run_case(c: &Value) -> Value {
